@@ -21,6 +21,13 @@ type c11Case struct {
 	Arg   Octets    `json:"arg"`           // everything after the verb and one space
 	Flags ref.Flags `json:"flags"`         // extension flags of the server
 	TLS   bool      `json:"tls,omitempty"` // the connection is under (implicit) TLS: no bearing on what is well-formed or enabled
+	// Before (optional): an earlier command of the same verb on the same
+	// connection that is refused - by the server ("server": it carries an
+	// unknown parameter behind well-formed ones) or by the backend
+	// ("backend": well-formed, answered 550 by the session). A refused
+	// command changes nothing: the judged line is read as if it came first.
+	Before          Octets `json:"before,omitempty"`
+	BeforeRefusedBy string `json:"before_refused_by,omitempty"`
 }
 
 func c11Run(c c11Case) Verdict {
@@ -33,7 +40,30 @@ func c11Run(c c11Case) Verdict {
 	if c.TLS {
 		cfg.TLS = "implicit"
 	}
-	r := harness.NewRig(cfg, harness.Script{})
+	script := harness.Script{}
+	before := string(c.Before)
+	beforeCalls := 0
+	if before != "" {
+		if strings.ContainsAny(before, "\n") {
+			return Verdict{Inconclusive: "generator: LF inside a command line"}
+		}
+		bres := ref.Classify(c.Mail, before, c.Flags)
+		refusal := []harness.Decision{{Kind: "smtp", Code: 550, Enh: [3]int{5, 7, 1}, Msg: "scripted refusal of the earlier command"}}
+		switch {
+		case c.BeforeRefusedBy == "backend" && bres.Class == ref.Valid:
+			beforeCalls = 1
+			if c.Mail {
+				script.Mail = refusal
+			} else {
+				script.Rcpt = refusal
+			}
+		case c.BeforeRefusedBy == "server" && bres.Class == ref.Invalid:
+		default:
+			// not known to be refused: nothing to build on
+			before = ""
+		}
+	}
+	r := harness.NewRig(cfg, script)
 	w, derr := r.Dial()
 	if derr != nil {
 		w.Finish()
@@ -50,6 +80,10 @@ func c11Run(c c11Case) Verdict {
 	if !c.Mail {
 		sb.WriteString("MAIL FROM:<s@x>\r\n")
 		nPre = 2
+	}
+	if before != "" {
+		sb.WriteString(c.Verb + " " + before + "\r\n")
+		nPre++
 	}
 	sb.WriteString(c.Verb + " " + arg + "\r\nQUIT\r\n")
 	w.Send([]byte(sb.String()))
@@ -78,14 +112,26 @@ func c11Run(c c11Case) Verdict {
 		return failf("one-reply", "line %q: expected exactly one reply to the command (banner, %d preamble replies, the reply, 221), got %v (%v)", c.Verb+" "+arg, nPre, codes(rs), err)
 	}
 	rp := rs[1+nPre]
+	if before != "" {
+		v.Classes = append(v.Classes, "after_command_refused_by_"+c.BeforeRefusedBy)
+		if brp := rs[nPre]; brp.Class() == 2 || brp.Class() == 3 {
+			return failf("before", "earlier line %q (refused by the %s) was answered %s", c.Verb+" "+before, c.BeforeRefusedBy, brp)
+		}
+	}
 	evs := r.B.Events()
 	var call *harness.Event
 	ncalls := 0
+	skip := beforeCalls
 	for i, e := range evs {
 		if !e.Begin {
 			continue
 		}
 		if (c.Mail && e.CB == "Mail") || (!c.Mail && e.CB == "Rcpt") {
+			if skip > 0 {
+				// the earlier command's own callback
+				skip--
+				continue
+			}
 			ncalls++
 			call = &evs[i]
 		}
@@ -505,6 +551,14 @@ func c11Gen(t *rapid.T) c11Case {
 	line = strings.ReplaceAll(line, "\n", "?")
 	c.Arg = Octets(line)
 	c.TLS = rapid.IntRange(0, 3).Draw(t, "tls") == 0
+	if rapid.IntRange(0, 3).Draw(t, "before") == 0 {
+		b := strings.ReplaceAll(genValidLine(t, c.Mail, c.Flags), "\n", "?")
+		c.BeforeRefusedBy = rapid.SampledFrom([]string{"server", "backend"}).Draw(t, "before_by")
+		if c.BeforeRefusedBy == "server" {
+			b += " " + rapid.SampledFrom([]string{"FOO=bar", "X", "SIZE=abc", "BODY=9BIT", "NOTIFY=SOMETIMES", "RRVS=yesterday", "a=b=c"}).Draw(t, "before_odd")
+		}
+		c.Before = Octets(b)
+	}
 	return c
 }
 
@@ -522,7 +576,7 @@ func init() {
 
 func TestC11(t *testing.T) {
 	registerAll()
-	st.Rule = "cases = MAIL/RCPT lines: grammar-derived valid lines (random case, path forms, all parameters with edge values, random order), single- and double-point mutations, valid lines with an odd/unknown/disabled/malformed parameter appended, and all short strings over {a @ < > . \" \\ : , ; = + SP} after FROM:/TO: and after '<a@b> ', x extension flags; oracle = independent three-valued reference grammar (valid: exact mailbox and options; invalid: 5xx, no callback, 504 for disabled extensions; unspecified: unchanged or refused); non-trivial = line with a parameter or a space or a definitely invalid line; distinct = hash of the whole case"
+	st.Rule = "cases = MAIL/RCPT lines: grammar-derived valid lines (random case, path forms, all parameters with edge values, random order), single- and double-point mutations, the judged line optionally preceded on its connection by a command of the same verb that the server or the backend refused, valid lines with an odd/unknown/disabled/malformed parameter appended, and all short strings over {a @ < > . \" \\ : , ; = + SP} after FROM:/TO: and after '<a@b> ', x extension flags; oracle = independent three-valued reference grammar (valid: exact mailbox and options; invalid: 5xx, no callback, 504 for disabled extensions; unspecified: unchanged or refused); non-trivial = line with a parameter or a space or a definitely invalid line; distinct = hash of the whole case"
 	if !regress(t, "C11") {
 		return
 	}
